@@ -4,21 +4,88 @@
    system-level proof can chain the statements: precondition `gok st G` + `hinv` of the handle arguments +
    membership of their trees in `G`; postcondition `gok st' G'` with `G' = htree h' :: G` (or `G`).
 
-   Section assumptions: EKW : ek_wf ek, UL : umap_lawful ek M uinv, CAP : capacity_ok capN; in the sub-sections
-   additionally CF : collision_free H and TRI : troot_inj ek (rebase), apply_spec (intra_rebase),
-   ECO : ek_codec_on ek valid, build_spec / build_fail / vtf_spec (codecs).
+   Section assumptions: EKW : ek_wf ek, UL : umap_lawful ek M uinv, CAP : capacity_ok capN; in sub-sections
+   additionally CF : collision_free H, TRI : troot_inj ek (rebase); NZ : nonzero_hash H and apply_spec, in the
+   exact shape of CollCtorP.apply_spec_hinv (intra_rebase); ECO : ek_codec_on ek valid, and for a fixed read
+   relation R the hypotheses build_spec / build_fail on List::try_from_iter (decoders).
 
-   Exported (see the Print Assumptions list at the end). *)
+   Exported:
+   1. reads (equations):  obs_get, obs_len, obs_to_vec, obs_iter_from, obs_level_iter_from,
+                          obs_clean_backing, obs_abs_clean
+   2. SSZ (C12):          ssz_encode_spec, ssz_bytes_len_spec (equations);
+                          list_from_ssz_roundtrip, list_from_ssz_strict_spec,
+                          vector_from_ssz_roundtrip, vector_from_ssz_strict_spec
+   3. serde (C13):        serde_ser_spec, list_serde_de_ok/_fail, vector_serde_de_ok/_fail
+   4. root (C02):         coll_root_spec
+   5. rebase (C07):       coll_rebase_spec
+   6. intra (C09):        coll_intra_spec_gok, coll_intra_hlist
+   auxiliary:             list_empty_clean (List::empty), vector_try_from_clean / as_vector_clean (TryFrom<List>
+                          for Vector on a clean list is a pure re-labelling: no `vtf_spec` hypothesis is needed),
+                          noset / noset_wp / wp_try_noset (programs without SetMemo and Par only allocate, and
+                          try_ catches all their failures), noset_list_try_from_iter, gok_alloc_only_o, gok_incl_o.
+   Every decoder statement also gives `alloc_only st st'` and, on failure, `gok st' G`. *)
 From Coq Require Import FMapPositive.
 From MH Require Import Inv IfaceP IterP HashP CodecP RebaseP IntraP WulP.
 Local Open Scope N_scope.
 
 (* ---------- generic facts about wp ---------- *)
-Lemma wp_true {A} R (m : prog A) : forall s, wp R m (fun _ _ => True) s.
+Lemma wp_trivial {A} R (m : prog A) : forall s, wp R m (fun _ _ => True) s.
 Proof.
   induction m as [A a|A e|A c|A k IH|A i k IH|A i d k IH|A p IHp q IHq k IHk|A t k IH]; cbn [wp]; intros s; auto.
   eapply wp_mono; [|apply IHp]. intros [a|e|c] s1 _; auto.
   eapply wp_mono; [|apply IHq]. intros [b|e|c] s2 _; auto.
+Qed.
+
+(* a program without memo writes and without fork-join only allocates, and `try_` catches all its failures *)
+Fixpoint noset {A} (m : prog A) : Prop :=
+  match m with
+  | Ret _ | Fail _ | Crash _ => True
+  | Fresh k => forall i, noset (k i)
+  | GetMemo _ k => forall d, noset (k d)
+  | SetMemo _ _ _ => False
+  | Par _ _ _ => False
+  | Note _ k => noset k
+  end.
+Lemma noset_bind {A B} (m : prog A) (f : A -> prog B) : noset m -> (forall a, noset (f a)) -> noset (bind m f).
+Proof.
+  induction m as [A a|A e|A c|A k IH|A i k IH|A i d k IH|A p IHp q IHq k IHk|A t k IH]; cbn [noset bind]; intros Hm Hf.
+  - apply Hf.
+  - exact I.
+  - exact I.
+  - intros i. apply IH; [apply Hm|exact Hf].
+  - intros d0. apply IH; [apply Hm|exact Hf].
+  - contradiction.
+  - contradiction.
+  - apply IH; assumption.
+Qed.
+Lemma noset_wp {A} R (m : prog A) : noset m -> forall s0 s, alloc_only s0 s -> wp R m (fun _ s' => alloc_only s0 s') s.
+Proof.
+  induction m as [A a|A e|A c|A k IH|A i k IH|A i d k IH|A p IHp q IHq k IHk|A t k IH]; cbn [noset wp]; intros Hm s0 s AO.
+  - exact AO.
+  - exact AO.
+  - exact AO.
+  - apply IH; [apply Hm|]. destruct AO as [E L]. split; [exact E|cbn [bump next]; lia].
+  - intros d0 _. apply IH; [apply Hm|exact AO].
+  - contradiction.
+  - contradiction.
+  - apply IH; assumption.
+Qed.
+Lemma wp_try_noset {A} R (m : prog A) : noset m -> forall (Q : outcome (error + A) -> state -> Prop) s,
+  wp R m (fun o s' => match o with
+                      | Ok a => Q (Ok (inr a)) s'
+                      | Err e => Q (Ok (inl e)) s'
+                      | Panic c => Q (Panic c) s' end) s ->
+  wp R (try_ m) Q s.
+Proof.
+  induction m as [A a|A e|A c|A k IH|A i k IH|A i d k IH|A p IHp q IHq k IHk|A t k IH]; cbn [noset wp try_]; intros Hm Q s W.
+  - exact W.
+  - exact W.
+  - exact W.
+  - apply IH; [apply Hm|exact W].
+  - intros d0 Hd. apply IH; [apply Hm|apply W; exact Hd].
+  - contradiction.
+  - contradiction.
+  - apply IH; assumption.
 Qed.
 
 (* ---------- generic facts about `idf` and `gok` ---------- *)
@@ -28,22 +95,18 @@ Section Gok.
   Variable H : digest -> digest -> digest.
   Notation tree := (tree T).
 
-  Lemma idf_incl (G G' : list tree) : idf G -> incl G' G -> idf G'.
+  Lemma idf_incl_o (G G' : list tree) : idf G -> incl G' G -> idf G'.
   Proof. intros I Hi t1 t2 u v I1 I2. apply I; apply Hi; assumption. Qed.
-  Lemma idf_single (G : list tree) t : idf G -> In t G -> idf [t].
-  Proof. intros I Ht. apply (idf_incl G); [exact I|]. intros x [<-|[]]. exact Ht. Qed.
-  Lemma idf_pair (G : list tree) t1 t2 : idf G -> In t1 G -> In t2 G -> idf [t1; t2].
-  Proof. intros I H1 H2. apply (idf_incl G); [exact I|]. intros x [<-|[<-|[]]]; assumption. Qed.
+  Lemma idf_single_o (G : list tree) t : idf G -> In t G -> idf [t].
+  Proof. intros I Ht. apply (idf_incl_o G); [exact I|]. intros x [<-|[]]. exact Ht. Qed.
+  Lemma idf_pair_o (G : list tree) t1 t2 : idf G -> In t1 G -> In t2 G -> idf [t1; t2].
+  Proof. intros I H1 H2. apply (idf_incl_o G); [exact I|]. intros x [<-|[<-|[]]]; assumption. Qed.
 
-  Lemma gok_incl st (G G' : list tree) : gok ek H st G -> incl G' G -> gok ek H st G'.
+  Lemma gok_incl_o st (G G' : list tree) : gok ek H st G -> incl G' G -> gok ek H st G'.
   Proof.
-    intros (I & BV & MB) Hi. split; [eapply idf_incl; eauto|]. split; [|exact MB].
+    intros (I & BV & MB) Hi. split; [eapply idf_incl_o; eauto|]. split; [|exact MB].
     intros t Ht. apply BV, Hi, Ht.
   Qed.
-  Lemma gok_below st (G : list tree) t : gok ek H st G -> In t G -> below (next st) t.
-  Proof. intros (_ & BV & _) Ht. apply BV, Ht. Qed.
-  Lemma gok_mvalid st (G : list tree) t : gok ek H st G -> In t G -> mvalid ek H st t.
-  Proof. intros (_ & BV & _) Ht. apply BV, Ht. Qed.
 End Gok.
 
 Section CollObsP.
@@ -80,9 +143,9 @@ Section CollObsP.
       assert (Hn : next st' = next st) by apply Ch.
       split; [exact IDF|]. split.
       + intros t Ht. destruct (BV t Ht) as [B V]. split; [rewrite Hn; exact B|].
-        eapply mvalid_changes; [exact Ch| |exact V]. eapply idf_pair; eauto.
+        eapply mvalid_changes; [exact Ch| |exact V]. eapply idf_pair_o; eauto.
       + eapply changes_memo_below; [exact Ch| |exact MB]. apply BV, Hin.
-    - eapply idf_single; eauto.
+    - eapply idf_single_o; eauto.
     - apply BV, Hin.
   Qed.
 
@@ -112,7 +175,7 @@ Section CollObsP.
     Proof.
       intros h base l lb st G HI HIb Hk GK Hin Hinb. pose proof GK as (IDF & BV & MB).
       destruct (BV _ Hin) as [B1 V1]. destruct (BV _ Hinb) as [B2 V2].
-      assert (X : xid (htree h) (htree base)) by (apply idf_xid; eapply idf_pair; eauto).
+      assert (X : xid (htree h) (htree base)) by (apply idf_xid; eapply idf_pair_o; eauto).
       eapply wp_mono; [|apply (coll_rebase_on_hinv ek H EKW hs_inj_cf M capN uinv h base l lb st CAP HI HIb Hk B1 B2 V1 V2 X)].
       intros o st' [(h' & -> & _ & Eu & Eb & Ed & El & Sh & F & MBk & B' & V' & Fo & Fu) HI'].
       specialize (HI' h' eq_refl). exists h'. split; [reflexivity|]. split; [exact HI'|].
@@ -143,10 +206,10 @@ Section CollObsP.
     destruct (umax_index M (hupd h)) as [m|]; [|cbn [wp]; apply Hsame].
     destruct (hlist h) eqn:Ek.
     - destruct (capN <=? m); [cbn [wp]; apply Hsame|].
-      apply wp_bind. eapply wp_mono; [|apply wp_true]. intros [[e1|t1]|e1|c1] s1 _; cbn [lift wp];
+      apply wp_bind. eapply wp_mono; [|apply wp_trivial]. intros [[e1|t1]|e1|c1] s1 _; cbn [lift wp];
         intros e h' E; try discriminate E; injection E as _ <-; reflexivity.
     - destruct (hblen h <=? m); [cbn [wp]; apply Hsame|].
-      apply wp_bind. eapply wp_mono; [|apply wp_true]. intros [[e1|t1]|e1|c1] s1 _; cbn [lift wp];
+      apply wp_bind. eapply wp_mono; [|apply wp_trivial]. intros [[e1|t1]|e1|c1] s1 _; cbn [lift wp];
         intros e h' E; try discriminate E; injection E as _ <-; cbn [with_tree with_upd hlist]; exact Ek.
   Qed.
   Lemma coll_intra_hlist R (h : handle) s :
@@ -155,8 +218,8 @@ Section CollObsP.
     unfold coll_intra_rebase. apply wp_bind. eapply wp_mono; [|apply apply_updates_hlist].
     intros [[e1 h1]|e1|c1] s1 Hl; cbn [lift]; try (intros e h' E; discriminate E).
     specialize (Hl e1 h1 eq_refl). destruct e1 as [e1|]; [cbn [wp]; intros e h' E; injection E as _ <-; exact Hl|].
-    apply wp_bind. eapply wp_mono; [|apply wp_true]. intros [d|e2|c2] s2 _; cbn [lift]; try (intros e h' E; discriminate E).
-    apply wp_bind. eapply wp_mono; [|apply wp_true].
+    apply wp_bind. eapply wp_mono; [|apply wp_trivial]. intros [d|e2|c2] s2 _; cbn [lift]; try (intros e h' E; discriminate E).
+    apply wp_bind. eapply wp_mono; [|apply wp_trivial].
     intros [[e3|[[|t3] k3]]|e3|c3] s3 _; cbn [lift wp]; intros e h' E; try discriminate E; injection E as _ <-;
       cbn [with_tree hlist]; exact Hl.
   Qed.
@@ -185,13 +248,389 @@ Section CollObsP.
       exists h'. split; [reflexivity|]. split; [split; assumption|]. split; [apply (Hl None h' eq_refl)|].
       split; [|exact Hm].
       assert (Inc' : incl (htree h' :: G) G') by (intros x [<-|Hx]; [exact Hin'|apply Inc, Hx]).
-      split; [eapply idf_incl; eauto|]. split; [|exact MB'].
+      split; [eapply idf_incl_o; eauto|]. split; [|exact MB'].
       intros t Ht. apply BV', Inc', Ht.
     Qed.
   End IntraObs.
+
+  (* ====================================================================== *)
+  (* 1. Reads (pure): uniform names for the IfaceP / IterP / WulP results    *)
+  (* ====================================================================== *)
+  Lemma cap_ld_o : capN <= cap ek (list_depth ek capN).
+  Proof. destruct CAP as [C1 C2]. apply (HashP.cap_list_depth ek capN C1 C2). Qed.
+
+  Theorem obs_get : forall (h : handle) l i, hinv h l -> iface_get ek M h i = nthN l i.
+  Proof. intros h l i. apply (iface_get_spec ek M uinv capN (get_rec_canon ek) cap_ld_o). Qed.
+  Theorem obs_len : forall (h : handle) l, hinv h l -> iface_len M h = lenN l.
+  Proof. apply (iface_len_spec ek M uinv capN). Qed.
+  Theorem obs_to_vec : forall (h : handle) l, hinv h l -> to_vec ek M h = Ret l.
+  Proof. apply (to_vec_eq ek M uinv capN CAP). Qed.
+  Theorem obs_iter_from : forall (h : handle) l i, hinv h l ->
+    coll_iter_from ek M h i =
+      if lenN l <? i then Fail (OutOfBoundsIterFrom i (lenN l)) else Ret (dropN i l, hints_from (lenN l - i)).
+  Proof. intros h l i HI. apply (coll_iter_from_eq ek M uinv capN CAP h l HI). Qed.
+  Theorem obs_level_iter_from : forall (h : handle) l n, hinv h l ->
+    (lenN l < n -> list_level_iter_from ek M h n = Fail (OutOfBoundsIterFrom n (lenN l))) /\
+    (n <= lenN l -> has_pending M h = true -> list_level_iter_from ek M h n = Fail LevelIterPendingUpdates) /\
+    (n <= lenN l -> has_pending M h = false ->
+       exists items, list_level_iter_from ek M h n = Ret items /\
+         items_blocks ek (compute_level n (hdepth h) (pd_of ek)) items (dropN n l) /\
+         (forall u, In u (internal_nodes items) -> subt u (htree h))).
+  Proof. intros h l n HI. apply (list_level_iter_from_spec ek M uinv capN UL CAP h l HI). Qed.
+  (* a clean handle: the backing tree is the canonical tree of the list *)
+  Theorem obs_clean_backing : forall (h : handle) l, hclean h l ->
+    shape (htree h) = canon ek (list_depth ek capN) l /\ hblen h = lenN l /\ hdepth h = list_depth ek capN.
+  Proof.
+    intros h l [HI HP]. destruct (IterP.no_pending_backing ek M uinv capN UL h l HI HP) as [Sh Hb].
+    destruct HI as (_ & Hd & _). rewrite Hd in Sh. auto.
+  Qed.
+  Theorem obs_abs_clean : forall (h : handle) l, hclean h l ->
+    abs_of M h l = {| a_list := hlist h; a_vals := l; a_pend := false; a_blen := lenN l |}.
+  Proof.
+    intros h l HC. destruct (obs_clean_backing h l HC) as (_ & Hb & _). destruct HC as [_ HP].
+    unfold abs_of. rewrite HP, Hb. reflexivity.
+  Qed.
+
+  (* ====================================================================== *)
+  (* 3a. serde serialisation                                                  *)
+  (* ====================================================================== *)
+  Theorem serde_ser_spec : forall (h : handle) l, hinv h l -> serde_ser ek M h = Ret l.
+  Proof. exact obs_to_vec. Qed.
+
+  (* ====================================================================== *)
+  (* 2a. SSZ encoding (C12)                                                   *)
+  (* ====================================================================== *)
+  Theorem ssz_encode_spec : forall (h : handle) l, hinv h l -> ssz_encode ek M h = Ret (serialize ek l).
+  Proof.
+    intros h l HI. unfold ssz_encode. rewrite (obs_to_vec h l HI). cbn [bind]. rewrite (obs_len h l HI).
+    destruct (efixed ek) as [s0|] eqn:Es.
+    - now rewrite (serialize_fixed ek s0 l Es).
+    - unfold bytes_per_offset. now rewrite (serialize_var ek l Es).
+  Qed.
+  Theorem ssz_bytes_len_spec : forall (valid : T -> Prop) (h : handle) l, ek_codec_on ek valid -> hinv h l ->
+    (forall s0, efixed ek = Some s0 -> Forall valid l) ->
+    ssz_bytes_len ek M h = Ret (lenN (serialize ek l)).
+  Proof.
+    intros valid h l ECO HI Hv. unfold ssz_bytes_len. destruct (efixed ek) as [s0|] eqn:Es.
+    - rewrite (obs_len h l HI). destruct (enc_fixed_on ek valid ECO s0 l Es) as [_ E].
+      rewrite (E (Hv s0 eq_refl)). reflexivity.
+    - rewrite (obs_to_vec h l HI). cbn [bind]. rewrite (obs_len h l HI). unfold bytes_per_offset.
+      rewrite (ssz_len_var ek l (4 * lenN l)), <- (serialize_var ek l Es). reflexivity.
+  Qed.
+
+  (* ====================================================================== *)
+  (* state lemmas for the constructors used by the decoders                   *)
+  (* ====================================================================== *)
+  Lemma mget_memo_eq' (s s' : state) j : memo s' = memo s -> mget s' j = mget s j.
+  Proof. intros E. unfold mget. rewrite E. reflexivity. Qed.
+  Lemma ao_refl_o s : alloc_only s s.
+  Proof. split; [reflexivity|lia]. Qed.
+  Lemma gok_alloc_only_o st st' (G : list tree) : gok st G -> alloc_only st st' -> gok st' G.
+  Proof.
+    intros (I & BV & MB) [Em Ln]. split; [exact I|]. split.
+    - intros t Ht. destruct (BV t Ht) as [B V]. split; [eapply below_mono; eauto|].
+      intros u Su Hm. rewrite (mget_memo_eq' st st' _ Em). apply V; auto.
+    - intros j Hj. rewrite (mget_memo_eq' st st' _ Em). apply MB. lia.
+  Qed.
+
+  Lemma uempty_none : umax_index M (uempty M) = None /\ ulen M (uempty M) = 0.
+  Proof.
+    pose proof (ul_empty_inv ek M uinv UL) as Hi.
+    assert (E : ulen M (uempty M) = 0) by (apply (ul_len_0 ek M uinv UL _ Hi); apply (ul_empty_get ek M uinv UL)).
+    split; [apply (ul_max_none ek M uinv UL _ Hi); exact E|exact E].
+  Qed.
+
+  (* List::empty (what the decoders return for the empty byte string) *)
+  Lemma list_empty_clean : forall R st (G : list tree), gok st G ->
+    wp R (list_empty ek M capN)
+       (fun o st' => exists h', o = Ok h' /\ hclean h' [] /\ hlist h' = true /\ gok st' (htree h' :: G) /\
+                                alloc_only st st') st.
+  Proof.
+    intros R st G GK. pose proof GK as (IDF & BV & MB). destruct uempty_none as [Emax Elen].
+    unfold list_empty, fresh. cbn [bind wp].
+    set (d := list_depth ek capN). set (z := next st).
+    exists (from_parts M (Zero z d) d 0). split; [reflexivity|].
+    assert (AO : alloc_only st (bump st)) by (split; [reflexivity|cbn [bump next]; lia]).
+    split; [|split; [reflexivity|split; [|exact AO]]].
+    - split.
+      + unfold Defs.hinv, habs, from_parts; cbn [htree hdepth hblen hupd hlist].
+        split; [|split; [reflexivity|split; [rewrite lenN_nil; destruct CAP; lia|split; [destruct CAP; lia|split; [discriminate|apply (ul_empty_inv ek M uinv UL)]]]]].
+        exists []. split; [cbn [shape]; destruct d; reflexivity|]. split; [reflexivity|]. split.
+        * split; [lia|]. split; [intros k v E; rewrite (ul_empty_get ek M uinv UL) in E; discriminate|].
+          split; [intros k _ Hk; rewrite lenN_nil in Hk; lia|intros k _ Hk; rewrite lenN_nil in Hk; lia].
+        * unfold updated_length. rewrite Emax. reflexivity.
+      + unfold has_pending, uis_empty, from_parts; cbn [hupd]. rewrite Elen. reflexivity.
+    - cbn [from_parts htree].
+      assert (Sz : forall u : tree, subt u (Zero z d) -> u = Zero z d) by (intros u [->|[]]; reflexivity).
+      split; [|split].
+      + apply (idf_install st (bump st)); [intros t0 Ht0; apply BV, Ht0|exact IDF| |].
+        * intros u Su. right. rewrite (Sz u Su). cbn [idof bump next]. subst z. lia.
+        * intros u v Su Sv _ _. rewrite (Sz u Su), (Sz v Sv). reflexivity.
+      + intros t [<-|Ht].
+        * split; [intros i [->|[]]; cbn [idof bump next]; subst z; lia|].
+          intros u Su Hm. rewrite (Sz u Su) in Hm. discriminate.
+        * apply (gok_alloc_only_o st (bump st) G GK AO), Ht.
+      + apply (gok_alloc_only_o st (bump st) G GK AO).
+  Qed.
+
+  (* ---------- the builder only allocates (syntactically: no SetMemo) ---------- *)
+  Lemma noset_builder_new d lv : noset (builder_new ek d lv).
+  Proof. unfold builder_new. destruct (63 <? d + N.of_nat (pd_of ek)); exact I. Qed.
+  Lemma noset_merge_n : forall n (top : tree) (stk : list (bool * tree)), noset (merge_n n top stk).
+  Proof.
+    induction n as [|n IH]; intros top stk; cbn [merge_n]; [exact I|].
+    destruct stk as [|[b lft] stk]; [exact I|]. unfold fresh. cbn [bind noset]. intros i. apply IH.
+  Qed.
+  Lemma noset_merge_up : forall n i x stk e1 e2, noset (merge_up ek n i x stk e1 e2).
+  Proof.
+    induction n as [|n IH]; intros i x stk e1 e2; cbn [merge_up]; [exact I|].
+    destruct (N.testbit x (N.of_nat (i + pd_of ek))); [|exact I].
+    destruct stk as [|[b1 r] [|[b2 l] stk]]; try exact I. unfold fresh. cbn [bind noset]. intros j. apply IH.
+  Qed.
+  Lemma noset_builder_push b v : noset (builder_push ek b v).
+  Proof.
+    unfold builder_push. destruct (blength b =? bcap b); [exact I|].
+    apply noset_bind.
+    - destruct (is_packed ek).
+      + destruct (blength b mod pf_of ek =? 0); [unfold fresh; cbn [bind noset]; intros i; exact I|].
+        destruct (bstack b) as [|[[|] [i v0|i vs|i l r|i z]] stk]; try exact I.
+        destruct (lenN vs =? pf_of ek); exact I.
+      + unfold fresh; cbn [bind noset]; intros i; exact I.
+    - intros [top stk]. apply noset_bind; [apply noset_merge_n|]. intros [top' stk']. exact I.
+  Qed.
+  Lemma noset_push_all : forall vs b, noset (push_all ek b vs).
+  Proof.
+    induction vs as [|v vs IH]; intros b; cbn [push_all]; [exact I|].
+    apply noset_bind; [apply noset_builder_push|]. intros b'. apply IH.
+  Qed.
+  Lemma noset_finish_loop : forall fuel b lv nx stk, noset (finish_loop ek fuel b lv nx stk).
+  Proof.
+    induction fuel as [|f IH]; intros b lv nx stk; cbn [finish_loop];
+      (destruct (N.shiftl nx (N.of_nat lv) mod 2 ^ 64 =? bcap b); [exact I|]); [exact I|].
+    destruct stk as [|[b1 top] stk]; [exact I|]. unfold fresh. cbn [bind noset]. intros zi ni.
+    apply noset_bind; [apply noset_merge_up|]. intros st2.
+    match goal with |- noset (if ?c then _ else _) => destruct c end; [exact I|].
+    match goal with |- noset (if ?c then _ else _) => destruct c end; [exact I|]. apply IH.
+  Qed.
+  Lemma noset_builder_finish b : noset (builder_finish ek b).
+  Proof.
+    unfold builder_finish. destruct (bstack b) as [|e0 stk0] eqn:Es; [unfold fresh; cbn [bind noset]; intros i; exact I|].
+    destruct (64 <=? blevel b); [exact I|]. apply noset_bind.
+    - destruct (is_packed ek); [|exact I].
+      match goal with |- noset (if ?c then _ else _) => destruct c end; [|exact I].
+      apply noset_bind; [apply noset_merge_up|]. intros st'. exact I.
+    - intros [next1 st1]. apply noset_bind; [apply noset_finish_loop|].
+      intros [|[b1 t] [|e1 st2]]; exact I.
+  Qed.
+  Lemma noset_list_try_from_iter vs : noset (list_try_from_iter ek M capN vs).
+  Proof.
+    unfold list_try_from_iter. apply noset_bind; [apply noset_builder_new|]. intros b.
+    apply noset_bind; [apply noset_push_all|]. intros b'.
+    apply noset_bind; [apply noset_builder_finish|]. intros [[t d] len].
+    destruct (capN <? len); exact I.
+  Qed.
+  Lemma list_try_from_iter_hlist R vs s :
+    wp R (list_try_from_iter ek M capN vs) (fun o _ => forall h' : handle, o = Ok h' -> hlist h' = true) s.
+  Proof.
+    unfold list_try_from_iter. apply wp_bind. eapply wp_mono; [|apply wp_trivial].
+    intros [b|e|c] s1 _; cbn [lift]; try (intros h' E; discriminate E).
+    apply wp_bind. eapply wp_mono; [|apply wp_trivial].
+    intros [b'|e|c] s2 _; cbn [lift]; try (intros h' E; discriminate E).
+    apply wp_bind. eapply wp_mono; [|apply wp_trivial].
+    intros [[[t d] len]|e|c] s3 _; cbn [lift]; try (intros h' E; discriminate E).
+    destruct (capN <? len); cbn [wp]; intros h' E; [discriminate E|]. injection E as <-. reflexivity.
+  Qed.
+
+  (* ---------- TryFrom<List> for Vector on a clean list: no flush, a pure re-labelling ---------- *)
+  Definition as_vector (h : handle) : handle :=
+    {| hlist := false; htree := htree h; hblen := capN; hdepth := hdepth h; hupd := hupd h |}.
+  Lemma vector_try_from_clean : forall (h : handle) l, hclean h l ->
+    vector_try_from ek M capN h =
+      if lenN l =? capN then Ret (as_vector h) else Fail (WrongVectorLength (lenN l) capN).
+  Proof.
+    intros h l HC. destruct (obs_clean_backing h l HC) as (_ & Hb & _). destruct HC as [HI HP].
+    unfold vector_try_from. rewrite (obs_len h l HI).
+    destruct (N.eqb_spec (lenN l) capN) as [E|E]; [|reflexivity].
+    assert (Eb : (hblen h =? capN) = true) by (apply N.eqb_eq; lia). rewrite Eb. reflexivity.
+  Qed.
+  Lemma as_vector_clean : forall (h : handle) l, hclean h l -> lenN l = capN ->
+    hclean (as_vector h) l /\ hlist (as_vector h) = false /\ htree (as_vector h) = htree h.
+  Proof.
+    intros h l HC E. destruct (obs_clean_backing h l HC) as (_ & Hb & _). destruct HC as [HI HP].
+    split; [|split; reflexivity]. split; [|exact HP].
+    destruct HI as ((bl & Sh & Lb & Ag & Ul) & Hd & Hl & Hbl & _ & Hu).
+    assert (Ec : capN = hblen h) by lia.
+    unfold Defs.hinv, habs, as_vector; cbn [htree hdepth hblen hupd hlist].
+    split; [exists bl; rewrite Ec; auto|]. split; [exact Hd|]. split; [exact Hl|]. split; [lia|]. auto.
+  Qed.
+
+  (* ====================================================================== *)
+  (* 2b/3b. decoders (C12, C13)                                               *)
+  (* ====================================================================== *)
+  Section Codec.
+    Variable valid : T -> Prop.
+    Hypothesis ECO : ek_codec_on ek valid.
+    Variable R : state -> id -> digest -> Prop.
+    (* the specification of List::try_from_iter (task `collctor`: list_try_from_iter_spec) *)
+    Hypothesis build_spec : forall vs st (G : list tree), gok st G -> lenN vs <= capN ->
+      wp R (list_try_from_iter ek M capN vs)
+         (fun o st' => exists h', o = Ok h' /\ hclean h' vs /\ gok st' (htree h' :: G)) st.
+    Hypothesis build_fail : forall vs st, capN < lenN vs ->
+      wp R (list_try_from_iter ek M capN vs) (fun o _ => o = Err BuilderFull) st.
+
+    Lemma build_or_ok e vs st (G : list tree) : gok st G -> lenN vs <= capN ->
+      wp R (build_or ek M capN e vs)
+         (fun o st' => exists h', o = Ok h' /\ hclean h' vs /\ hlist h' = true /\ gok st' (htree h' :: G) /\
+                                  alloc_only st st') st.
+    Proof.
+      intros GK Hl. unfold build_or. apply wp_bind. apply (wp_try_noset R _ (noset_list_try_from_iter vs)).
+      eapply wp_mono; [|apply wp_conj; [apply (build_spec vs st G GK Hl)|apply wp_conj;
+        [apply (list_try_from_iter_hlist R vs st)|apply (noset_wp R _ (noset_list_try_from_iter vs) st st (ao_refl_o st))]]].
+      intros o st' [(h' & -> & HC & GK') [Hk AO]]. cbn [lift wp]. exists h'. auto 6.
+    Qed.
+    Lemma build_or_fail e vs st (G : list tree) : gok st G -> capN < lenN vs ->
+      wp R (build_or ek M capN e vs) (fun o st' => o = Err e /\ gok st' G /\ alloc_only st st') st.
+    Proof.
+      intros GK Hl. unfold build_or. apply wp_bind. apply (wp_try_noset R _ (noset_list_try_from_iter vs)).
+      eapply wp_mono; [|apply wp_conj; [apply (build_fail vs st Hl)|
+        apply (noset_wp R _ (noset_list_try_from_iter vs) st st (ao_refl_o st))]].
+      intros o st' [-> AO]. cbn [lift wp].
+      assert (GK' : gok st' G) by (eapply gok_alloc_only_o; eauto). auto.
+    Qed.
+
+    (* ---------- List: Decode ---------- *)
+    Theorem list_from_ssz_roundtrip : forall l st (G : list tree),
+      Forall valid l -> lenN l <= capN -> (efixed ek = None -> lenN (serialize ek l) < 2 ^ 32) -> gok st G ->
+      wp R (list_from_ssz ek M capN (serialize ek l))
+         (fun o st' => exists h', o = Ok h' /\ hclean h' l /\ hlist h' = true /\ gok st' (htree h' :: G) /\
+                                  alloc_only st st') st.
+    Proof.
+      intros l st G Hv Hl H32 GK. rewrite (list_from_ssz_serialize ek M capN valid ECO l Hv Hl H32).
+      destruct l as [|v r]; [apply list_empty_clean; exact GK|apply build_or_ok; assumption].
+    Qed.
+
+    Theorem list_from_ssz_strict_spec : forall b st (G : list tree), valid_bytes b = true -> gok st G ->
+      wp R (list_from_ssz ek M capN b)
+         (fun o st' => alloc_only st st' /\
+            match o with
+            | Ok h' => exists l, hclean h' l /\ hlist h' = true /\ serialize ek l = b /\ Forall valid l /\
+                                 lenN l <= capN /\ gok st' (htree h' :: G)
+            | Err e => e = EDecode /\ gok st' G
+            | Panic _ => False
+            end) st.
+    Proof.
+      intros b st G Hb GK.
+      destruct (list_from_ssz_strict ek M capN valid ECO b Hb) as [[-> E]|[E|(vs & Es & Hv & Hl & E)]]; rewrite E.
+      - eapply wp_mono; [|apply (list_empty_clean R st G GK)].
+        intros o st' (h' & -> & HC & Hk & GK' & AO). split; [exact AO|]. exists []. rewrite serialize_nil.
+        repeat (split; [solve [auto]|]). split; [rewrite lenN_nil; lia|exact GK'].
+      - cbn [wp]. split; [apply ao_refl_o|auto].
+      - eapply wp_mono; [|apply (build_or_ok EDecode vs st G GK Hl)].
+        intros o st' (h' & -> & HC & Hk & GK' & AO). split; [exact AO|]. exists vs. auto 8.
+    Qed.
+
+    (* ---------- Vector: Decode ---------- *)
+    Lemma vector_finish (e : error) (h : handle) l (Q : outcome handle -> state -> Prop) s : hclean h l ->
+      (if lenN l =? capN then Q (Ok (as_vector h)) s else Q (Err e) s) ->
+      wp R (r <- try_ (vector_try_from ek M capN h) ;; match r with inl _ => Fail e | inr v => Ret v end)%prog Q s.
+    Proof.
+      intros HC HQ. rewrite (vector_try_from_clean h l HC). destruct (lenN l =? capN); cbn [try_ bind wp]; exact HQ.
+    Qed.
+
+    Theorem vector_from_ssz_roundtrip : forall l st (G : list tree),
+      Forall valid l -> lenN l = capN -> (efixed ek = None -> lenN (serialize ek l) < 2 ^ 32) -> gok st G ->
+      wp R (vector_from_ssz ek M capN (serialize ek l))
+         (fun o st' => exists v, o = Ok v /\ hclean v l /\ hlist v = false /\ gok st' (htree v :: G) /\
+                                 alloc_only st st') st.
+    Proof.
+      intros l st G Hv Hl H32 GK. unfold vector_from_ssz. apply wp_bind.
+      eapply wp_mono; [|apply (list_from_ssz_roundtrip l st G Hv ltac:(lia) H32 GK)].
+      intros o st' (h' & -> & HC & Hk & GK' & AO). cbn [lift].
+      apply (vector_finish EDecode h' l _ st' HC). rewrite (proj2 (N.eqb_eq _ _) Hl).
+      destruct (as_vector_clean h' l HC Hl) as (HC' & Hk' & Et).
+      exists (as_vector h'). rewrite Et. auto 6.
+    Qed.
+
+    Theorem vector_from_ssz_strict_spec : forall b st (G : list tree), valid_bytes b = true -> gok st G ->
+      wp R (vector_from_ssz ek M capN b)
+         (fun o st' => alloc_only st st' /\
+            match o with
+            | Ok v => exists l, hclean v l /\ hlist v = false /\ serialize ek l = b /\ Forall valid l /\
+                                lenN l = capN /\ gok st' (htree v :: G)
+            | Err e => e = EDecode /\ gok st' G
+            | Panic _ => False
+            end) st.
+    Proof.
+      intros b st G Hb GK. unfold vector_from_ssz. apply wp_bind.
+      eapply wp_mono; [|apply (list_from_ssz_strict_spec b st G Hb GK)].
+      intros [h'|e|c] st' [AO P]; cbn [lift]; [|auto|contradiction].
+      destruct P as (l & HC & Hk & Es & Hv & Hl & GK').
+      apply (vector_finish EDecode h' l _ st' HC).
+      destruct (N.eqb_spec (lenN l) capN) as [E|E].
+      - split; [exact AO|]. destruct (as_vector_clean h' l HC E) as (HC' & Hk' & Et).
+        exists l. rewrite Et. auto 8.
+      - split; [exact AO|]. split; [reflexivity|]. eapply gok_incl_o; [exact GK'|]. intros x Hx. right. exact Hx.
+    Qed.
+
+    (* ---------- serde Deserialize (C13): a clean handle, or ESerde; never a panic ---------- *)
+    Theorem list_serde_de_ok : forall vs st (G : list tree), lenN vs <= capN -> gok st G ->
+      wp R (list_serde_de ek M capN vs)
+         (fun o st' => exists h', o = Ok h' /\ hclean h' vs /\ hlist h' = true /\ gok st' (htree h' :: G) /\
+                                  alloc_only st st') st.
+    Proof. intros vs st G Hl GK. rewrite list_serde_de_eq. apply build_or_ok; assumption. Qed.
+    Theorem list_serde_de_fail : forall vs st (G : list tree), capN < lenN vs -> gok st G ->
+      wp R (list_serde_de ek M capN vs) (fun o st' => o = Err ESerde /\ gok st' G /\ alloc_only st st') st.
+    Proof. intros vs st G Hl GK. rewrite list_serde_de_eq. apply build_or_fail; assumption. Qed.
+
+    Theorem vector_serde_de_ok : forall vs st (G : list tree), lenN vs = capN -> gok st G ->
+      wp R (vector_serde_de ek M capN vs)
+         (fun o st' => exists v, o = Ok v /\ hclean v vs /\ hlist v = false /\ gok st' (htree v :: G) /\
+                                 alloc_only st st') st.
+    Proof.
+      intros vs st G Hl GK. unfold vector_serde_de. apply wp_bind.
+      eapply wp_mono; [|apply (list_serde_de_ok vs st G ltac:(lia) GK)].
+      intros o st' (h' & -> & HC & Hk & GK' & AO). cbn [lift].
+      apply (vector_finish ESerde h' vs _ st' HC). rewrite (proj2 (N.eqb_eq _ _) Hl).
+      destruct (as_vector_clean h' vs HC Hl) as (HC' & Hk' & Et).
+      exists (as_vector h'). rewrite Et. auto 6.
+    Qed.
+    Theorem vector_serde_de_fail : forall vs st (G : list tree), lenN vs <> capN -> gok st G ->
+      wp R (vector_serde_de ek M capN vs) (fun o st' => o = Err ESerde /\ gok st' G /\ alloc_only st st') st.
+    Proof.
+      intros vs st G Hl GK. unfold vector_serde_de. apply wp_bind.
+      destruct (N.lt_ge_cases capN (lenN vs)) as [Hgt|Hle].
+      - eapply wp_mono; [|apply (list_serde_de_fail vs st G Hgt GK)]. intros o st' (-> & GK' & AO). cbn [lift]. auto.
+      - eapply wp_mono; [|apply (list_serde_de_ok vs st G Hle GK)].
+        intros o st' (h' & -> & HC & Hk & GK' & AO). cbn [lift].
+        apply (vector_finish ESerde h' vs _ st' HC).
+        destruct (N.eqb_spec (lenN vs) capN) as [E|E]; [contradiction|].
+        split; [reflexivity|]. split; [|exact AO]. eapply gok_incl_o; [exact GK'|]. intros x Hx. right. exact Hx.
+    Qed.
+  End Codec.
 End CollObsP.
 
 Print Assumptions coll_root_spec.
 Print Assumptions coll_rebase_spec.
 Print Assumptions coll_intra_hlist.
 Print Assumptions coll_intra_spec_gok.
+Print Assumptions obs_get.
+Print Assumptions obs_len.
+Print Assumptions obs_to_vec.
+Print Assumptions obs_iter_from.
+Print Assumptions obs_level_iter_from.
+Print Assumptions obs_clean_backing.
+Print Assumptions obs_abs_clean.
+Print Assumptions serde_ser_spec.
+Print Assumptions ssz_encode_spec.
+Print Assumptions ssz_bytes_len_spec.
+Print Assumptions list_empty_clean.
+Print Assumptions vector_try_from_clean.
+Print Assumptions as_vector_clean.
+Print Assumptions list_from_ssz_roundtrip.
+Print Assumptions list_from_ssz_strict_spec.
+Print Assumptions vector_from_ssz_roundtrip.
+Print Assumptions vector_from_ssz_strict_spec.
+Print Assumptions list_serde_de_ok.
+Print Assumptions list_serde_de_fail.
+Print Assumptions vector_serde_de_ok.
+Print Assumptions vector_serde_de_fail.
